@@ -313,6 +313,15 @@ func c12Run(c *fw.Ctx) {
 			}
 		}
 	}
+	// 9c. pair lists that end with a key without its value: rejected as a whole, the store is
+	// as it was (the read-back and the final store comparison see a partial write)
+	for _, bad := range [][]string{
+		{"MSET", "k", "new", "j"}, {"MSET", "j", "1", "t", "2", "u"}, {"MSETNX", "t", "1", "u"}, {"MSETNX", "t", "1", "u", "2", "v"},
+		{"HMSET", "h", "a", "new", "c"}, {"HMSET", "g", "f", "1", "f2"}, {"HMSET", "h", "c", "3", "d", "4", "e"},
+	} {
+		run(c12Case{Setup: preset, Program: append([][]string{bad}, readback...)}, "odd-pair-list")
+		run(c12Case{Program: append([][]string{bad}, readback...)}, "odd-pair-list")
+	}
 	// 10. CONFIG SET / GET
 	c12Config(c)
 }
